@@ -37,7 +37,9 @@ META = {
              'fields (quick 8, thorough 40). Names: 30% from the wider snake grammar; Literals include same-typed numeric member sets (Literal[0,1,2], Literal[True]). '
              'Per class: 1 well-typed document + k random mutations (quick 4, thorough 6: junk from a 40-value pool, keys dropped/renamed/added, lists truncated/extended/doubled) '
              '+ m systematic single-position mutations sampled from the enumeration over EVERY position (quick 6, thorough 10): scalar -> each ==-but-differently-typed value '
-             '(1 / 1.0 / True, "1" / 1), list -> one shorter / one longer, position -> null. Each document x {default, v1, from_json}. '
+             '(1 / 1.0 / True, "1" / 1), list -> one shorter / one longer, position -> null. Each document x {default, v1, from_json}; every document OBJECT is loaded twice '
+             '(same outcome required) and compared with its deep copy afterwards. History axis: for half of the class models the well-typed document is written by the independent '
+             'reference encoder so that the FIRST operation on the classes is a load (no dump before), for the other half it is asdict output. '
              'Non-trivial: the document differs from the well-typed one or the class has a container/union/class layer. Distinct: distinct (class digest | document digest | engine).'),
     'trusted_base': ['model coq/model/CoreLoad.v (parser per annotation, scalar coercions, Union scan + tag dispatch, Literal, tuple arity window, '
                      'TypedDict required keys, cls_fromdict key resolution and defaults)',
@@ -169,7 +171,7 @@ def canon_show(s):
 def make_cases(ctx):
     cases = []
     r = ctx.sub_rng('sys')
-    g = Gen(r, {'neg_timedelta': False, 'nonfinite': False, 'ext_names': 0.3, 'same_named_enums': 0.4})
+    g = Gen(r, {'neg_timedelta': False, 'nonfinite': False, 'ext_names': 0.3, 'wild_names': 0.1, 'same_named_enums': 0.4})
     items = systematic_types(g, 2 if ctx.tier == 'quick' else 3)
     if ctx.tier != 'quick':
         d3 = [it for it in items if it[0].count('<') == 2]
@@ -231,7 +233,7 @@ def make_cases(ctx):
         cases.append({'root': root, 'value': g5.value(root), 'seed': 1000 + ri, 'n_mut': 2, 'labels': ['samename'] * 2, 'src': 'samename'})
     r2 = ctx.sub_rng('rand')
     for j in range(60 if ctx.tier == 'quick' else 500):
-        g2 = Gen(r2, {'neg_timedelta': False, 'nonfinite': False, 'ext_names': 0.3, 'same_named_enums': 0.4})
+        g2 = Gen(r2, {'neg_timedelta': False, 'nonfinite': False, 'ext_names': 0.3, 'wild_names': 0.1, 'same_named_enums': 0.4})
         nf = r2.choice([1, 2, 3, 4])
         tys = [g2.rand_type(r2.choice([1, 2, 3])) for _ in range(nf)]
         defaults = {}
@@ -252,13 +254,15 @@ def make_cases(ctx):
         tag_nested(root)
         cases.append({'root': root, 'value': g2.value(root), 'seed': r2.getrandbits(48), 'n_mut': n_mut,
                       'labels': ['rand'] * nf, 'src': 'random'})
+    rh = ctx.sub_rng('history')
     for c in cases:
         c.setdefault('n_sys', 6 if ctx.tier == 'quick' else 10)
+        c['load_first'] = rh.random() < 0.5       # history: first load before / after the first dump of the classes
     return cases
 
 
 def strip(c, extra=None):
-    d = {k: c[k] for k in ('root', 'value', 'seed', 'n_mut', 'n_sys', 'extra_docs') if k in c}
+    d = {k: c[k] for k in ('root', 'value', 'seed', 'n_mut', 'n_sys', 'extra_docs', 'load_first') if k in c}
     if extra is not None:
         d['extra_docs'] = extra
         d['n_mut'] = 0
@@ -271,6 +275,8 @@ def judge(ctx, engine, o, in_model_region=True):
     bad, known = [], []
     if not o.get('input_same', True):
         bad.append('%s: the input document was mutated by the load' % engine)
+    if o.get('second_same') is False:
+        bad.append('%s: loading the same document object a second time gives a different outcome (%s)' % (engine, o.get('second')))
     if 'show' in o and o.get('conf') is not None:
         rules = o.get('lax_rules') or []
         if o.get('lax_conf') is None and rules and all(ctx.is_open_region(x) for x in rules):
@@ -360,6 +366,7 @@ def run(ctx):
                     ctx.violation('C05 direct predicate fails: %s' % '; '.join(bad),
                                   {'kind': 'doc', 'case': strip(c), 'doc': d.get('doc'), 'engine': eng})
             ctx.hist('doc_kind', d['kind'])
+            ctx.hist('history', 'load-first' if c.get('load_first') else 'dump-first')
             m = model.get((ci, di))
             if m is None:
                 continue
